@@ -180,7 +180,7 @@ func init() {
 				}
 				return hostileRun("C05", []ast.Node{calcrun.FromNode(nodes[0])}, idx%2 == 0, "matrix", "")
 			}},
-			{Name: "random", Count: countFn(20000, 2000000), Run: func(ctx *core.Ctx, idx int) core.Result {
+			{Name: "random", Count: countFn(50000, 2000000), Run: func(ctx *core.Ctx, idx int) core.Result {
 				r := core.CaseRng(ctx.Seed, "C05/random", idx)
 				n := r.Range(1, 5)
 				stmts := make([]ast.Node, n)
@@ -189,7 +189,7 @@ func init() {
 				}
 				return hostileRun("C05", stmts, idx%2 == 0, "random", "")
 			}},
-			{Name: "mutation", Count: countFn(8000, 800000), Run: func(ctx *core.Ctx, idx int) core.Result {
+			{Name: "mutation", Count: countFn(20000, 800000), Run: func(ctx *core.Ctx, idx int) core.Result {
 				r := core.CaseRng(ctx.Seed, "C05/mutation", idx)
 				cs := corpusSessions()
 				c := cs[r.Intn(len(cs))]
@@ -232,7 +232,7 @@ func init() {
 				return hostileRun("C05", stmts, idx%2 == 0, "pipes", "")
 			}},
 			{Name: "binary", Count: countFn(300, 6000), Run: c05Binary},
-			{Name: "typed", Count: countFn(4000, 400000), Run: func(ctx *core.Ctx, idx int) core.Result {
+			{Name: "typed", Count: countFn(10000, 400000), Run: func(ctx *core.Ctx, idx int) core.Result {
 				r := core.CaseRng(ctx.Seed, "C05/typed", idx)
 				o := gen.DefaultOpts()
 				o.MaxDepth = r.Range(1, 4)
